@@ -17,6 +17,9 @@ Definition fF (m e : Z) : option fval := Some (FFin m e).
 
 Definition oO (s : string) : result bytes := Ok (unhex s).
 Definition oP : result bytes := Panic.
+(* the call did not return within the harness's time limit: like a panic, no output was produced;
+   the model never predicts it, so it is both a disagreement and a failure of the boolean form *)
+Definition oH : result bytes := Panic.
 
 (* c function arguments oracle-text observed *)
 Definition c (f : fn) (args : list arg) (orc : string) (o : result bytes) : case * result bytes :=
